@@ -209,8 +209,11 @@ class Server:
         return self.handle(note(method, params))
 
     # convenience -------------------------------------------------------------------
-    def did_open(self, path):
-        return self.notify("textDocument/didOpen", {"textDocument": {"uri": uri_of(path)}})
+    def did_open(self, path, text=None):
+        td = {"uri": uri_of(path)}
+        if text is not None:
+            td.update({"languageId": "fortran", "version": 1, "text": text})
+        return self.notify("textDocument/didOpen", {"textDocument": td})
 
     def did_save(self, path):
         return self.notify("textDocument/didSave", {"textDocument": {"uri": uri_of(path)}})
